@@ -6,6 +6,7 @@ import (
 	"encoding/json"
 	"fmt"
 	"os"
+	"strconv"
 
 	"verifharness/props"
 	"verifharness/vf"
@@ -53,7 +54,18 @@ func run(path string) (res result) {
 
 func main() {
 	enc := json.NewEncoder(os.Stdout)
+	repeat := 1
+	if r, err := strconv.Atoi(os.Getenv("VF_REPEAT")); err == nil && r > 1 {
+		repeat = r // stress mode for schedule-dependent counterexamples (concurrency harnesses)
+	}
 	for _, p := range os.Args[1:] {
-		enc.Encode(run(p))
+		var res result
+		for i := 0; i < repeat; i++ {
+			res = run(p)
+			if res.Status != "ok" && res.Status != "invalid" {
+				break
+			}
+		}
+		enc.Encode(res)
 	}
 }
